@@ -57,6 +57,8 @@ func (e *SExpr) String() string {
 		return e.Name + "(" + e.Str + ")"
 	case "not", "neg":
 		return map[string]string{"not": "!", "neg": "-"}[e.Op] + e.Args[0].String()
+	case "addr":
+		return "&" + e.Args[0].String()
 	case "old":
 		return "old(" + e.Args[0].String() + ")"
 	case "index":
@@ -239,6 +241,10 @@ func (p *specParser) parseUnary() *SExpr {
 	if p.pos < len(p.src) && p.src[p.pos] == '-' {
 		p.pos++
 		return &SExpr{Op: "neg", Args: []*SExpr{p.parseUnary()}}
+	}
+	if p.pos < len(p.src) && p.src[p.pos] == '&' && !strings.HasPrefix(p.src[p.pos:], "&&") {
+		p.pos++
+		return &SExpr{Op: "addr", Args: []*SExpr{p.parsePostfix()}}
 	}
 	return p.parsePostfix()
 }
